@@ -2,13 +2,13 @@ SPECIFICATION Spec
 CONSTANTS
   Readers = {1}
   Writers = {11, 12}
-  RIter = 1
-  WIter = 2
+  RIter = 2
+  WIter = 1
   Order <- MCOrder
-  Threshold = 2
+  Threshold = 1
   QCap = 2
   EpochLate = FALSE
-  OneFlip = TRUE
+  OneFlip = FALSE
   NoEpochCheck = FALSE
   FreeRejected = FALSE
   MaxEpoch = 6
